@@ -400,6 +400,7 @@ def finish_job(ctx, st, world, inflight, k, wf_m=(1,)):
     except core.Inconclusive:
         raise
     except Exception as e:
+        core.reraise_if_proxy_limitation(e)
         ctx.fail(_assert_label(e, "treat_output"), _tb(e))
     finally:
         del st.swap
@@ -553,6 +554,7 @@ def restart_roundtrip(ctx, st, world, inflight, k):
     except core.Inconclusive:
         raise
     except Exception as e:
+        core.reraise_if_proxy_limitation(e)
         _install_world(saved_world)
         ctx.fail("C05:restart-file-loads", repr(e))
         return
@@ -579,6 +581,7 @@ def restart_roundtrip(ctx, st, world, inflight, k):
     except core.Inconclusive:
         raise
     except Exception as e:
+        core.reraise_if_proxy_limitation(e)
         _install_world(saved_world)
         ctx.fail("C06:restart-re-issues-in-flight-jobs (exception)", repr(e))
         return
@@ -607,6 +610,7 @@ def next_job(ctx, st, world, inflight, md):
     except ZeroDivisionError as e:
         ctx.fail("C05:a-job-can-always-be-drawn", _tb(e))
     except Exception as e:
+        core.reraise_if_proxy_limitation(e)
         ctx.fail(_assert_label(e, "pick"), _tb(e))
     finally:
         rngmodel.GenModel.choice_hook = None
@@ -870,6 +874,7 @@ def _bmc(ctx, sh):
         paths = [mk_minus_path(k, 0)] + [mk_plus_path(k, arr[j - 1], 1, j) for j in range(1, k)]
         st.load_paths(paths)
     except Exception as e:
+        core.reraise_if_proxy_limitation(e)
         ctx.fail("C05:initialisation", repr(e))
         return
     inflight = []
@@ -888,6 +893,7 @@ def _bmc(ctx, sh):
         try:
             more = st.loop()
         except Exception as e:
+            core.reraise_if_proxy_limitation(e)
             ctx.fail("C05:loop", repr(e))
             return
         if not more:
